@@ -2,7 +2,11 @@
    sqlfluff.core.templaters.base: TemplatedFile.__init__   (constructor-established tiling: holds for EVERY templater,
                                   because every TemplatedFile goes through this constructor)
    sqlfluff.core.templaters.base: RawTemplater.process
-Bounded (labelled): python / jinja / placeholder slicers against the executable `valid` predicate.
+   sqlfluff.core.templaters.jinja: JinjaTemplater._rectify_templated_slices   (contracts/c07_rectify.py: the remapping of the source
+                                  positions of the unreached-code variants onto the ORIGINAL file, proved under the precondition that
+                                  the caller establishes for templates without loops; 4 lemmas about the position shift)
+Bounded (labelled): python / jinja / placeholder slicers against the executable `valid` predicate (contracts/c07_bounded.py);
+   _rectify_templated_slices on generated layouts and on every real call made over the jinja template grammar (c07_rectify.BOUNDED).
 """
 from pyvc.dsl import contract, external, spec, lemma, implies, inline, ref_class, rec_class
 from pyvc.ty import INT, BOOL, Text, StrA, TList, TTuple, TOpt, TRec, SLICE, TOpaque
